@@ -457,7 +457,7 @@ def run(ctx):
         'Plan (spec/CliPlan.tla) is transcribed from cmd/minify/README.md and the property text, not from the code; scenarios it does not determine are not run',
         'the library side is minify.M set up as the library README documents (default options), called through the public API',
         'file modes, ownership and timestamps are not part of the property statement and are not judged',
-        'TLC enumerates trees of <= %d entries from a universe of 19 entries x 57 invocation shapes; the real binary runs a seeded per-shape sample' % (2 if quick else 4),
+        'TLC enumerates trees of <= %d entries from a universe of 19 entries x 69 invocation shapes; the real binary runs a seeded per-shape sample' % (2 if quick else 4),
     ]
 
 
@@ -493,7 +493,7 @@ META = dict(
     category='model_checking',
     text='Plan(tree, argv) - the documented semantics of the command (output file / directory mirror / stdout, trailing '
          'slashes, -r, -a, --match, --include/--exclude order, --type/--mime/--ext, -b with the ";\\n" separator, -s, -p links, '
-         'in-place) - is a TLA+ operator. TLC evaluates it on every tree of a 19-entry universe (<=2/<=4 entries) x 57 '
+         'in-place) - is a TLA+ operator. TLC evaluates it on every tree of a 19-entry universe (<=2/<=4 entries) x 69 '
          'invocation shapes, checks design claims (mirror shape, each source once, sync covers all, fresh output is safe) '
          'and hands the determined scenarios to the real binary; the recorded final file tree, exit status and stdout '
          'are validated by TLC against Plan and the library\'s own output: every destination holds exactly the library '
